@@ -63,6 +63,20 @@ EDITS = [
  ("D9 seed narrowed to u32 in the signature", "src/matrix_card.rs", "fn generate_coordinates(width: u8, height: u8, challenge_count: u8, mut seed: u64)", "fn generate_coordinates(width: u8, height: u8, challenge_count: u8, mut seed: u32)"),
  ("S1 bitwise not on the length (`!s.len() > 16` is `(!s.len()) > 16`)", "src/normalized_string.rs",
   "if s.len() > MAXIMUM_STRING_LENGTH_IN_BYTES as usize || s.is_empty()", "if !(!s.len() > MAXIMUM_STRING_LENGTH_IN_BYTES as usize) || s.is_empty()"),
+ ("G1 callee name imported from a local module that swaps the seeds", "src/wrath_header/mod.rs",
+  "use crate::vanilla_header::calculate_world_server_proof;",
+  "use self::shadow::calculate_world_server_proof;\nmod shadow { use crate::key::{Proof, SessionKey}; use crate::normalized_string::NormalizedString; pub(crate) fn calculate_world_server_proof(u: &NormalizedString, k: &SessionKey, a: u32, b: u32) -> Proof { crate::vanilla_header::calculate_world_server_proof(u, k, b, a) } }"),
+ ("G2 world proof: parameter NAMES swapped in the signature only", "src/vanilla_header/internal.rs",
+  "    server_seed: u32,\n    client_seed: u32,\n) -> Proof {", "    client_seed: u32,\n    server_seed: u32,\n) -> Proof {"),
+ ("G3 reconnect proof: client and server data swapped", "src/srp_internal.rs",
+  "        .chain_update(client_data.as_le_bytes())\n        .chain_update(server_data.as_le_bytes())", "        .chain_update(server_data.as_le_bytes())\n        .chain_update(client_data.as_le_bytes())"),
+ ("G4 xor hash: or for xor", "src/srp_internal.rs", "xor_hash[i] = *n ^ g_hash[i];", "xor_hash[i] = *n | g_hash[i];"),
+ ("G5 reconnect integrity: 19 zero bytes", "src/integrity.rs", "let zero_buffer = [0_u8; SHA1_HASH_LENGTH as usize];", "let zero_buffer = [0_u8; SHA1_HASH_LENGTH as usize - 1];"),
+ ("G6 verify_reconnection_attempt: refresh only when refused", "src/server.rs",
+  "        self.reconnect_challenge_data.randomize_data();\n\n        reconnect_verified", "        if !reconnect_verified { self.reconnect_challenge_data.randomize_data(); }\n\n        reconnect_verified"),
+ ("G7 into_server: server proof over the CLIENT's proof bytes before the comparison moved", "src/server.rs",
+  "            &client_public_key,\n            &server_calculated_proof,\n            &session_key,", "            &client_public_key,\n            &client_calculated_proof,\n            &session_key,"),
+ ("G8 interleave: odd bytes first", "src/srp_internal.rs", "for (i, e) in S.iter().step_by(2).enumerate()", "for (i, e) in S.iter().skip(1).step_by(2).enumerate()"),
  ("L2 loop variable shadowed by a local", "src/vanilla_header/encrypt.rs",
   "        *unencrypted = encrypted;\n        *previous_value = encrypted;", "        *unencrypted = encrypted;\n        let unencrypted = encrypted ^ 1;\n        *previous_value = unencrypted;"),
 ]
